@@ -14,6 +14,7 @@ atr_stale : models whose non-constant terms all cancelled ("stale": cached
 """
 import functools
 import math
+import numbers
 import warnings
 
 from hypothesis import strategies as st
@@ -134,7 +135,8 @@ def model_strategy(draw):
     if mode != "float":
         # no cancelling pairs with arbitrary floats: exact cancellation would depend on summation order
         terms = _add_cancel(terms, draw(_PICKS))
-    return {"kind": kind, "labels": labels, "terms": terms, "build": draw(_BUILD), "float": mode == "float"}
+    return {"kind": kind, "labels": labels, "terms": terms, "build": draw(_BUILD), "float": mode == "float",
+            "ctype": draw(gen.CTYPE)}
 
 
 _PROB = st.one_of(st.sampled_from(PROB_GRID), st.sampled_from(PROB_GRID),
@@ -187,7 +189,7 @@ def table_terms(terms, labels, spin):
 
 def build_obj(qv, spec):
     kind = spec["kind"]
-    terms = [(tuple(k), v) for k, v in spec["terms"]]
+    terms = [(tuple(k), gen.wrap_number(v, spec.get("ctype"))) for k, v in spec["terms"]]
     if _is_dict(kind):
         return gen.terms_dict(terms)
     if spec.get("build", "iadd") == "init":
@@ -235,7 +237,7 @@ def _pair(res, what, detail):
         raise Violation("not_a_pair/%s" % what, "returned %r; %s" % (res, detail))
     a, b = res
     for x in (a, b):
-        if isinstance(x, bool) or not isinstance(x, (int, float)) or not math.isfinite(x):
+        if isinstance(x, bool) or not isinstance(x, numbers.Real) or not math.isfinite(x):
             raise Violation("not_finite_number/%s" % what, "returned %r; %s" % (res, detail))
     return a, b
 
